@@ -5,7 +5,7 @@
 # Expected outcome for every stored change: exit=1 with VIOLATION lines.
 set -u
 SID=$1
-PROP=${2:-$(python3 -c "import json,sys;print(json.load(open('/verif/seeded/$SID/meta.json'))['property'])")}
+PROP=${2:-$(python3 -c "import json,sys;m=json.load(open('/verif/seeded/$SID/meta.json'));print(m.get('check',m['property']))")}
 TIER=${3:-quick}
 BASE=$(python3 -c "import json;print(json.load(open('/verif/seeded/$SID/meta.json')).get('check_base','HEAD'))")
 WT=/tmp/seedwt/$SID
